@@ -2,4 +2,5 @@
 EXTENDS Reusable
 Sz12 == [c \in {"c1", "c2"} |-> IF c = "c1" THEN 1 ELSE 2]
 Sz21 == [c \in {"c1", "c2"} |-> IF c = "c1" THEN 2 ELSE 1]
+Sz121 == [c \in {"c1", "c2", "c3"} |-> IF c = "c2" THEN 2 ELSE 1]
 ====
